@@ -276,6 +276,11 @@ def edges_from(image, no_edges):
             image.shape_native[1] - 1 - edge_no,
         ]
 
+        if image.shape_native[0] - 1 - edge_no == edge_no:
+            bottom_edge = bottom_edge[:0]
+        if image.shape_native[1] - 1 - edge_no == edge_no:
+            right_edge = right_edge[:0]
+
         edges = np.concatenate((edges, top_edge, bottom_edge, right_edge, left_edge))
 
     return edges
